@@ -30,3 +30,30 @@ ASSUMPTIONS = [
     "a panic in a request handler surfaces as a dropped connection (net/http recovers it), a panic in any other goroutine as the death of the harness process: both are reported",
     "well-formed = status line parses, status in 100..599, body readable to the end its framing announces; error statuses are well-formed answers",
 ]
+
+
+def post(ctx):
+    """Thorough tier only, once per tree: re-check every compiled property file and everything it depends on with the
+    independent checker coqchk and record the axioms it reports."""
+    if ctx.tier != "thorough":
+        return
+    import glob
+    import os
+    import re
+    import sys
+    sys.path.insert(0, os.path.join(os.path.dirname(os.path.abspath(__file__)), "..", "lib"))
+    import vlib
+    mods = sorted("Reservoir.Properties." + os.path.basename(p)[:-2] for p in glob.glob(os.path.join(vlib.THEORIES, "Properties", "*.v")))
+    ctx.obligations += 1
+    with vlib.CoqLock():
+        rc, out = vlib.sh(["coqchk", "-silent", "-o", "-Q", "theories", "Reservoir", "-Q", "gen", "ReservoirGen"] + mods, cwd=vlib.COQ, timeout=2400)
+    m = re.search(r"\* Axioms:(.*?)\n\s*\n\* Constants/Inductives relying on type-in-type:(.*?)\n\s*\n\* Constants/Inductives relying on unsafe \(co\)fixpoints:(.*?)\n\s*\n\* Inductives whose positivity is assumed:(.*?)\n", out + "\n\n", flags=re.S)
+    summary = " | ".join(" ".join(x.split()) for x in m.groups()) if m else out[-400:]
+    ok = rc == 0 and m is not None and all("<none>" in g for g in m.groups())
+    ctx.notes.append("coqchk -o over %d property modules: axioms / type-in-type / unsafe fixpoints / assumed positivity = %s" % (len(mods), summary))
+    if ok:
+        ctx.discharged += 1
+        ctx.theorems["coqchk:all_property_modules"] = "coqchk: Axioms: <none>"
+    else:
+        ctx.violation({"kind": "obligation", "broken": "coqchk does not accept the compiled development or reports axioms / disabled checks",
+                       "output": out[-3000:]}, "replay_coqchk.json", no_input=True)
